@@ -172,6 +172,7 @@ func runGroup(cfg replayCfg, g group) (res caseResult) {
 	var out Out
 	for _, op := range g.Path {
 		out = w.apply(op)
+		quiesce(cfg, op)
 		if strings.HasPrefix(out.Err, "panic:") {
 			// reported on the (shorter) edge that ends with this call
 			return caseResult{Status: "skip", Why: "panic-on-path"}
@@ -190,6 +191,7 @@ func runGroup(cfg replayCfg, g group) (res caseResult) {
 		}
 	}
 	out = w.apply(g.Act)
+	quiesce(cfg, g.Act)
 	got := w.project(out)
 	if strings.HasPrefix(out.Err, "panic:") {
 		return caseResult{Status: "mismatch", Why: "panic", Got: &got, Detail: out.Err + "\n" + lastPanic}
@@ -218,6 +220,35 @@ func runGroup(cfg replayCfg, g group) (res caseResult) {
 		return caseResult{Status: "ok", Match: j}
 	}
 	return caseResult{Status: "mismatch", Why: why, Got: &got}
+}
+
+// quiesce is the barrier after a cancelled-ctx call on a MeterProvider: PeriodicReader.ForceFlush hands its request
+// to the run loop and, its ctx being done, may return BEFORE the run loop has collected and exported (the model admits
+// both "exported" and "not exported" for such a call, so matching early is not enough: the late export would be
+// attributed to the next call). The send to flushCh makes the run goroutine runnable before ForceFlush can return, so
+// "every (*PeriodicReader).run goroutine is parked in its own select (or gone)" is exact, not a timing guess.
+func quiesce(cfg replayCfg, op Op) {
+	if cfg.Prov != "mp" || op.Ctx != "cancelled" {
+		return
+	}
+	for t0 := time.Now(); time.Since(t0) < settleBound; time.Sleep(200 * time.Microsecond) {
+		if periodicIdle(allStacks()) {
+			return
+		}
+	}
+}
+
+func periodicIdle(dump string) bool {
+	for _, g := range strings.Split(dump, "\n\n") {
+		if !strings.Contains(g, "(*PeriodicReader).run") {
+			continue
+		}
+		lines := strings.SplitN(g, "\n", 3)
+		if len(lines) < 2 || !strings.Contains(lines[0], "[select") || !strings.Contains(lines[1], "(*PeriodicReader).run") {
+			return false
+		}
+	}
+	return true
 }
 
 func allStacks() string {
